@@ -43,7 +43,7 @@ def gen_affine(rng, kind=None):
         "scale", "scale_uniform", "scale_near_uniform", "scale_limit", "scale_center",
         "scale_center_uniform", "scale_center_fraccenter", "scale_center_bigcenter",
         "scale_one_axis", "scale_one_axis_bad", "general", "shear", "near_singular", "rot",
-        "neg_scale", "tiny_offdiag",
+        "neg_scale", "tiny_offdiag", "shear_int_translate",
     ]
     kind = kind or rng.choice(kinds)
     R = lambda lo, hi, den=64: Fr(rng.randint(lo * den, hi * den), den)
@@ -94,6 +94,12 @@ def gen_affine(rng, kind=None):
         t = rng.choice([(one, zero, zero, s, R(-50, 50), R(-50, 50)), (s, zero, zero, one, R(-50, 50), R(-50, 50))])
     elif kind == "shear":
         t = (one, R(-2, 2), R(-2, 2), one, R(-50, 50), R(-50, 50))
+    elif kind == "shear_int_translate":
+        # unit diagonal, whole-number translation, and a shear or rotation part that must not be lost
+        b, c = rng.choice([(R(-2, 2), zero), (zero, R(-2, 2)), (R(-2, 2), R(-2, 2)), (Fr(111, 64), -Fr(111, 64))])
+        if (b, c) == (zero, zero):
+            b = Fr(1, 2)
+        t = (one, b, c, one, Fr(rng.randint(-300, 300)), Fr(rng.randint(-300, 300)))
     elif kind == "near_singular":
         a, b = R(-3, 3), R(-3, 3)
         k = R(-2, 2)
@@ -150,7 +156,7 @@ def run(report: Report, n_cases: int):
     hyp_calls = _patch_exact_math()
     rng = random.Random(report.seed)
     report.rule = (
-        "stratified affines over Fractions (21 strata covering every branch of paint.transformed and the "
+        "stratified affines over Fractions (22 strata covering every branch of paint.transformed and the "
         "boundaries between them: exact zeros vs 1e-9 near-zeros, F2Dot14/int16 limits, 1-s tiny, mixed signs, "
         "shear, near-singular); non-trivial = not the identity and not a pure integer translation; distinct = "
         "distinct (function, input) after canonicalisation"
